@@ -1,3 +1,79 @@
-"""thorough-tier extras (DESIGN.md 3.5): reachability probes, sensitivity catalogue, doubled rlimit"""
+"""thorough-tier extras (DESIGN.md 3.5): reachability probes behind every precondition, the sensitivity catalogue, equivalent
+edits that must still verify, and the complete differential corpus as a *bounded* supplement (never counted as proved)."""
+import os, re, shutil, tempfile, importlib, concurrent.futures as cf
+from . import run as vrun
+
+def _mutate(repo_src, fname, pat, rep):
+    d = tempfile.mkdtemp(prefix='vxcat_')
+    dst = os.path.join(d, 'src')
+    shutil.copytree(repo_src, dst)
+    p = os.path.join(dst, fname)
+    s = open(p).read()
+    n = len(re.findall(pat, s))
+    if n != 1:
+        shutil.rmtree(d, ignore_errors=True)
+        return None, 'pattern matches %d times' % n
+    open(p, 'w').write(re.sub(pat, rep, s, count=1))
+    root = os.path.dirname(os.path.abspath(repo_src))
+    if os.path.exists(os.path.join(root, 'Cargo.toml')): shutil.copy(os.path.join(root, 'Cargo.toml'), os.path.join(d, 'Cargo.toml'))
+    return d, ''
+
+def _run_entry(entry, repo_src, pid, expect_fail=True):
+    if expect_fail: ident, prop, units, fname, pat, rep = entry
+    else: (ident, units, fname, pat, rep), prop = entry, pid
+    d, why = _mutate(repo_src, fname, pat, rep)
+    if d is None:
+        return dict(id=ident, outcome='inapplicable', detail=why)
+    try:
+        hard = []; und = []; other = []
+        for u in units:
+            unit = importlib.import_module('contracts.' + u).UNIT
+            r = vrun.run_unit(unit, os.path.join(d, 'src'), out_dir=os.path.join(d, 'gen'), threads=2)
+            if r.status == 'undecided': und.append('%s: %s' % (u, r.reason[:160]))
+            for f in r.failures:
+                if r.modes.get(f.owner) in ('contract_only', 'external'):
+                    und.append('%s fell back to %s' % (f.owner, r.modes.get(f.owner)))
+                elif (not expect_fail) or prop in f.props: hard.append(f.ident())
+                else: other.append(f.ident())
+            for k, w in r.fallback.items():
+                if r.modes.get(k) == 'external': und.append('%s: %s' % (k, w[:100]))
+            for own, msg in r.rlimit: und.append('resource limit in %s' % own)
+        hard = [h for h in hard if not re.search(r'from\.(i|u)128$', h)]      # known findings D8
+        if expect_fail:
+            outcome = 'caught' if hard else ('undecided' if und else ('other_property_only' if other else 'missed'))
+        else:
+            outcome = 'false_alarm' if hard else ('undecided' if und else 'verifies')
+        return dict(id=ident, outcome=outcome, obligations=sorted(set(hard))[:4], detail='; '.join(und)[:300])
+    finally:
+        shutil.rmtree(d, ignore_errors=True)
+
 def run(pid, spec, repo_src, results):
-    return {}
+    out = {}
+    cat = importlib.import_module('contracts.catalogue')
+    # 1. reachability: assert(false) behind the preconditions of every contracted function of this property's units must fail
+    probes = {}
+    for u in spec.get('units', []):
+        unit = importlib.import_module('contracts.' + u).UNIT
+        pr = vrun.run_probe(unit, repo_src)
+        probes[u] = dict(status=pr['status'], probed=len(pr['probed']), reached=len(pr['reached']), not_reached=pr['not_reached'], reason=pr.get('reason', ''))
+    out['reachability'] = probes
+    # 2. sensitivity catalogue for this property; 3. equivalent edits on this property's units
+    entries = [e for e in cat.C if e[1] == pid]
+    eq = [e for e in cat.EQUIVALENT if set(e[1]) & set(spec.get('units', []))]
+    with cf.ThreadPoolExecutor(max_workers=6) as ex:
+        f1 = [ex.submit(_run_entry, e, repo_src, pid, True) for e in entries]
+        f2 = [ex.submit(_run_entry, e, repo_src, pid, False) for e in eq]
+        out['sensitivity'] = [f.result() for f in f1]
+        out['equivalent_edits'] = [f.result() for f in f2]
+    # 4. the complete differential corpus, as a bounded supplement
+    try:
+        from . import witness
+        tried = 0; found = []
+        for c in witness.PROP_CATS.get(pid, []):
+            ds, n = witness.run_category(c, repo_src, 0)
+            tried += n
+            found += [d for d in ds if pid in d['properties']]
+        out['bounded_corpus'] = dict(cases=tried, discrepancies=len(found), first=(found[0] if found else None))
+    except Exception as e:
+        out['bounded_corpus'] = dict(error='%s: %s' % (type(e).__name__, str(e)[:200]))
+    return out
